@@ -49,7 +49,7 @@ def plan(tier, seed):
 def floors(tier):
     return {"distinct_nontrivial": 200, "unwind.close": 200, "unwind.exc": 50, "op:full": 500, "op:take": 100,
             "op:abandon": 100, "op:drop": 100, "op:boom_raised": 50, "op:the": 50, "cls:dup_domain": 50,
-            "cls:caching_off": 100, "cache.check.hit": 500, "cls:ruletree_history": 100, "cls:shared_expression_pool": 60, "cls:twin:nexttree": 40, "cls:twin:kwvar": 40}
+            "cls:caching_off": 100, "cache.check.hit": 500, "cls:ruletree_history": 100, "cls:shared_expression_pool": 60, "cls:twin:nexttree": 30, "cls:twin:kwvar": 30, "cls:twin:concat": 30, "cls:twin:flatsub": 30}
 
 
 def cases(spec, ctx):
@@ -63,7 +63,7 @@ def cases(spec, ctx):
             for _ in range(rng.randint(2, 6)):
                 kind = rng.choice(["full", "full", "take", "abandon", "drop"])
                 ops.append([kind, 0] if kind == "full" else [kind, 0, rng.randint(1, 3)])
-            twin = rng.choice(["nexttree", "kwvar"])
+            twin = rng.choice(["nexttree", "kwvar", "concat", "flatsub"])
             if twin == "kwvar":
                 # an iterator that is kept alive but never advanced again is beyond the quantifier ("take k results then
                 # close"): a keyword-constrained variable marks itself while its constraints are being evaluated and a
@@ -311,6 +311,9 @@ def check_ruletree_case(case, ctx):
     ctx.sample({"ruletree": case["ruletree"], "ops": case["ops"], "history_log": log})
 
 
+_USER_LISTS = []      # [parents, snapshot of their lists] of the twin case being run (kept out of the JSON-able case)
+
+
 def _twin_builder(case):
     """-> (build() -> query, encode(result) -> hashable)"""
     from entity_query_language import symbolic_mode, let, entity, infer, Add, a
@@ -320,6 +323,34 @@ def _twin_builder(case):
     objs = [c12.N(*v) for v in case["data"]]
     idx = {id(o): i for i, o in enumerate(objs)}
     (a1, t1), (a2, t2) = case["conds"]
+    if case["twin"] in ("concat", "flatsub"):
+        # a selected expression over a sub-query with alternatives: concatenate / flatten of its inner collections
+        from entity_query_language import an, set_of, or_
+        from entity_query_language.entity import concatenate, flatten
+        from . import c16
+        es = [c16.E(i + 1) for i in range(5)]
+        pars = [c16.Par(v[0], [es[(v[1] + j) % 5] for j in range(v[2] - 1)]) for v in case["data"]]
+        _USER_LISTS[:] = [pars, [list(p_.items) for p_ in pars]]
+        eidx = {id(e): i for i, e in enumerate(es)}
+        pidx = {id(p_): i for i, p_ in enumerate(pars)}
+
+        def build():
+            with symbolic_mode():
+                p = let(c16.Par, pars)
+                sub = an(entity(p, or_(p.k > t1, p.k == t2)))
+                if case["twin"] == "concat":
+                    return an(entity(concatenate(sub.items)))
+                f = flatten(sub.items)
+                q = an(set_of([sub, f]))
+                q._enc_keys = (sub, f)
+                return q
+
+        def enc(r):
+            if case["twin"] == "concat":
+                return tuple(eidx.get(id(x), -1) for x in r)
+            vals = list(r.values())
+            return tuple(sorted((pidx.get(id(v), -1), eidx.get(id(v), -1)) for v in vals))
+        return build, enc
     if case["twin"] == "nexttree":
         def build():
             with symbolic_mode():
@@ -348,6 +379,7 @@ def check_twin_case(case, ctx):
     (enable_caching if case["caching"] else disable_caching)()
     log, keep = [], []
     try:
+        _USER_LISTS.clear()
         build, enc = _twin_builder(case)
         want = Counter(enc(o) for o in build().evaluate())      # the answer: a fresh query evaluated once
         q = build()
@@ -373,11 +405,18 @@ def check_twin_case(case, ctx):
                 else:
                     del it
                     gc.collect()
-        if len(want) >= 2 and any(e[0] != "full" for e in log):
+        if _USER_LISTS:
+            pars, snap = _USER_LISTS
+            changed = [i for i, (p_, l_) in enumerate(zip(pars, snap)) if len(p_.items) != len(l_) or any(a is not b for a, b in zip(p_.items, l_))]
+            if changed:
+                ctx.fail("USER_DATA_MODIFIED_BY_EVALUATION", {"parents_whose_list_changed": changed, "history_log": log})
+                return
+        if (len(want) >= 2 or case["twin"] == "concat") and any(e[0] != "full" for e in log):
             ctx.nontrivial()
     finally:
         enable_caching()
         keep.clear()
+        _USER_LISTS.clear()
     ctx.sample({"shape": case["twin"], "ops": case["ops"], "history_log": log, "rows": sum(want.values())})
 
 
